@@ -5,8 +5,9 @@ declarative predicate), the CreateHalfedges gate and edge-op invariants over the
 (Topo/Halfedge*.v), pipeline_ok_sound over the generated pass tables (Gen/Pipelines.v);
 (T) translator translate/c01_pipeline.py + correspondence harness c01_topo (model vs Impl arrays);
 (S) end-to-end programs of public operations, every exported mesh judged by the EXTRACTED checker."""
-import json, os, random, re, threading, time
+import json, os, random, re, sys, threading, time
 import vp
+sys.path.insert(0, os.path.join(vp.ROOT, "translate"))
 
 LEVEL = "proof"
 META = {
@@ -173,7 +174,7 @@ class Gen:
         if k == 15:
             return self.add("hullmany", a, self.pick())
         if k == 16:
-            return self.add(r.choice(["mink", "mink", "minkdiff"]), a, self.pick(), r.choice([600, 2500]))
+            return self.add(r.choice(["mink", "mink", "minkdiff"]), a, self.pick(), r.choice([150, 400]))
         if k == 17:
             return self.add("smoothout", a, f3(r.choice([52.5, 0, 30, 90, 180])), f3(r.choice([0, 0, 0.5, 1])))
         if k == 18:
@@ -415,13 +416,13 @@ def diagnose(mesh_line):
     return "unknown"
 
 
-def evaluate(cx, exe, drv, progs, nproc, timeout=1500):
+def evaluate(cx, exe, drv, progs, nproc, timeout=1500, alarm=25):
     """progs: {pid: (maxtri, ins)}.  Returns list of findings (pid, k, key, desc, info) — first failing
     instruction per program only — and statistics."""
     lines = [prog_line(pid, mt, ins) for pid, (mt, ins) in progs.items()]
     kl = lambda l: l.split()[1] if l.startswith("PROG") else None
 
-    out, crashes = run_parallel([exe, "100"], lines, nproc, timeout)
+    out, crashes = run_parallel([exe, str(alarm)], lines, nproc, timeout)
     S, mesh, ended = {}, {}, set()
     for l in out.splitlines():
         if l.startswith("S "):
@@ -432,9 +433,9 @@ def evaluate(cx, exe, drv, progs, nproc, timeout=1500):
         elif l.startswith("END "):
             ended.add(l.split()[1])
     verdict = judge(drv, list(mesh.values()), nproc)
-    findings, stats = [], {"values": 0, "nonempty": 0, "error_status": 0, "tris": 0, "ops": {}, "skipped": 0, "maxtri_seen": 0}
+    findings, stats = [], {"values": 0, "nonempty": 0, "error_status": 0, "tris": 0, "ops": {}, "skipped": 0, "maxtri_seen": 0, "timeouts": []}
     for pid, (mt, ins) in progs.items():
-        first = None
+        first = firsttan = None
         ids = [i for i in S if i.split(".")[0] == pid]
 
         def order(i):
@@ -479,8 +480,14 @@ def evaluate(cx, exe, drv, progs, nproc, timeout=1500):
                     key, desc = "nonfinite-position@" + op, "value %s has Status NoError but a non-finite vertex position" % vid
                 elif finProp == 0:
                     key, desc = "nonfinite-property@" + op, "value %s has Status NoError but a non-finite vertex property" % vid
+                elif finTan == 0 and firsttan is None:
+                    # secondary: reported, but the program is still followed (NaN tangents do not change the topology of this value)
+                    firsttan = (pid, k, "nonfinite-tangent@" + op, "value %s (result of `%s`) has Status NoError but its exported halfedgeTangent contains non-finite numbers" % (
+                        vid, " ".join(ins[k][:6])), {"S": " ".join(t), "value": vid})
             if key and first is None:
                 first = (pid, k, key, desc, {"S": " ".join(t), "value": vid})
+        if firsttan:
+            findings.append(firsttan)
         if first:
             findings.append(first)
         elif pid not in ended:
@@ -489,6 +496,10 @@ def evaluate(cx, exe, drv, progs, nproc, timeout=1500):
             k = (done[-1] + 1) if done else 0
             op = ins[k][0] if k < len(ins) else "?"
             rc = cr[0][1] if cr else "?"
+            if rc in (-14, 124, 142):
+                # slow is not wrong: the per-program alarm fired (recorded, not a violation)
+                stats["timeouts"].append("%s@%s" % (pid, op))
+                continue
             findings.append((pid, k, "crash@" + op, "the library crashed or hung (rc=%s) while evaluating instruction %d `%s`: %s" % (
                 rc, k, " ".join(ins[k][:8]) if k < len(ins) else "?", (cr[0][2][-200:] if cr else "")), {"value": "%s.%d" % (pid, k)}))
     return findings, stats
@@ -549,7 +560,8 @@ def shrink(cx, exe, drv, mt, ins, k, key, budget=40):
                     cand.append(i)
                 runs += 1
                 f, _ = evaluate(cx, exe, drv, {"s": (mt, cand)}, 1, timeout=120)
-                if f and f[0][2] == key:
+                f = [x for x in f if x[2] == key]
+                if f:
                     c2, k2 = cone(cand, f[0][1])
                     ins = c2[:k2 + 1]
                     changed = True
@@ -577,13 +589,105 @@ def replay(cx, exe, drv, path):
 
 # ------------------------------------------------------------------ the check
 
+def translate_pipelines(cx):
+    """Regenerate coq/Gen/Pipelines.v from the repo working tree.  Returns the pipeline records (or None)."""
+    import importlib
+    import c01_pipeline as T
+    importlib.reload(T)
+    gen = os.path.join(vp.COQ, "Gen", "Pipelines.v")
+    try:
+        pipes = T.translate(vp.REPO)
+    except T.TranslateError as e:
+        T.emit_coq([], gen)
+        cx.broke("translate:c01_pipeline", "the pass-table translator no longer understands the source: %s" % e)
+        return None
+    T.emit_coq(pipes, gen)
+    for d in pipes:
+        if d["waiver"]:
+            cx.assumptions.append("pipeline %s: generator assumed to create no unreferenced vertex / no opposed triangle pair (%s) - not proved, oracle on outputs only" % (d["name"], d["waiver"]))
+    return pipes
+
+
+def pipeline_verdicts(cx, drv, pipes, findings_by_variant, exe, progs_seen):
+    """Judge every generated pass table with the extracted pipeline_ok.  A rejected pipeline is a broken
+    proof obligation; it is reported through the concrete violation(s) the end-to-end run found for the
+    operations that run that pipeline, or - after an extra search aimed at those operations - as broken."""
+    rc, out, err = vp.sh2([drv], input="PIPE\n", timeout=60)
+    toks = out.split()
+    if rc != 0 or not toks or toks[0] != "PIPE" or len(toks) - 1 != len(pipes):
+        cx.broke("pipeline:verdicts", "extracted pipeline_ok produced no verdicts (%r %r)" % (out[:100], err[:200]))
+        return
+    table = {}
+    for d, v in zip(pipes, toks[1:]):
+        ok = v == "1"
+        table[d["name"]] = {"passes": d["passes_abs"], "fresh": d["fresh"], "ok": ok}
+        if ok:
+            cx.obligation("pipeline:" + d["name"], True)
+            continue
+        hits = [f for f in findings_by_variant if f[5] in d["ops"]]
+        if not hits:
+            # search aimed at the rejected pipeline: programs that end in one of its operations
+            rng = random.Random(cx.seed * 31337 + len(d["name"]))
+            extra = {}
+            n = 0
+            while len(extra) < cx.pick(150, 1200) and n < 20000:
+                n += 1
+                ins = gen_program(rng, rng.choice(["general", "general", "lattice", "import", "smooth-refine"]))
+                ks = [i for i, x in enumerate(ins) if x[0] in d["ops"]]
+                if ks:
+                    extra["x%s%d" % (d["name"], len(extra))] = (cx.pick(2500, 20000), ins[:ks[-1] + 1])
+            f2, st2 = evaluate(cx, exe, drv, extra, min(vp.NPROC, 12))
+            cx.cov.setdefault("pipeline_search", {})[d["name"]] = {"programs": len(extra), "values": st2["values"], "hits": len(f2)}
+            for pid, k, key, desc, info in f2:
+                mt, ins = extra[pid]
+                small = ins
+                try:
+                    small = shrink(cx, exe, drv, mt, ins, k, key, budget=25)
+                except Exception:
+                    pass
+                cx.violation(key, desc + " [found by the search aimed at pipeline %s, rejected by pipeline_ok]" % d["name"],
+                             {"program": prog_line("r", mt, small), "original_program": prog_line(pid, mt, ins), "variant": "seq",
+                              "failing_value": info.get("value"), "pipeline": d["name"], "passes": d["passes_abs"]})
+                hits.append((pid, k, key, desc, info, ins[k][0]))
+                break
+        cx.obligations += 1
+        table[d["name"]]["explained_by"] = sorted({h[2] for h in hits})
+        if not hits:
+            cx.broke("pipeline:" + d["name"], "pipeline_ok rejects the pass list of %s read from %s: %s (fresh=%s) - a vertex stranded by %s is never "
+                     "tombstoned before SortGeometry; no concrete failing input found" % (
+                         d["name"], d["file"], " ; ".join(d["passes_abs"]), d["fresh"],
+                         "CreateHalfedges/Subdivide" if not d["fresh"] else "the generator or CreateHalfedges"))
+        else:
+            cx.notes.append("pipeline %s rejected by pipeline_ok (%s); concrete failing input reported under key(s) %s" % (
+                d["name"], " ; ".join(d["passes_abs"]), table[d["name"]]["explained_by"]))
+    cx.cov["pipelines"] = table
+
+
+def prove_retry(cx):
+    """cx.prove(), retried when the shared coq/Makefile lost a race with another check that was regenerating
+    its coq/Gen/*.v at the same moment ('No rule to make target')."""
+    for attempt in range(4):
+        nb, no, nd = len(cx.broken), cx.obligations, cx.discharged
+        ok = cx.prove()
+        if ok:
+            return True
+        log = open(os.path.join(vp.BUILD, "logs", "coq_%s.log" % cx.pid)).read()
+        if "No rule to make target" not in log or attempt == 3:
+            return False
+        del cx.broken[nb:]
+        cx.obligations, cx.discharged = no, nd
+        time.sleep(5 + 5 * attempt)
+    return False
+
+
 def run(cx):
     cx.assumptions += [
         "end-to-end part: coverage of programs is what the seeded generator reaches (families general/lattice/import/smooth-refine/large); the verdict on each exported mesh is the extracted Coq checker's, proved equivalent to the declarative predicate",
         "harness (C++) applies mergeFromVert->mergeToVert and renumbers surviving vertices; OCaml driver parses integers; both trusted",
         "finiteness of positions/properties is tested by the harness with std::isfinite (not a Coq artefact)",
     ]
-    cx.prove()
+    pipes = translate_pipelines(cx)
+    prove_retry(cx)
     mls = vp.coq_extract("ExtractC01", ["c01_model.ml"])
     drv = vp.ocaml_build("c01_driver", mls + [os.path.join(vp.ROOT, "extract/c01_driver.ml")])
     exe = vp.build_harness(HARNESS, "seq", link_lib=True)
@@ -610,8 +714,8 @@ def run(cx):
                         progs["c%s%d" % (re.sub(r"\W", "", fn[:-5]), i)] = (int(t[2]), [seg.split() for seg in l.strip().split("|")[1:]])
     t0 = time.time()
     findings, stats = evaluate(cx, exe, drv, progs, min(vp.NPROC, 12))
-    cx.log("seq: %d programs, %d values (%d non-empty, %d error-status, %d skipped-large), %d triangles judged, %.1fs" % (
-        len(progs), stats["values"], stats["nonempty"], stats["error_status"], stats["skipped"], stats["tris"], time.time() - t0))
+    cx.log("seq: %d programs, %d values (%d non-empty, %d error-status, %d skipped-large, %d timeouts), %d triangles judged, %.1fs" % (
+        len(progs), stats["values"], stats["nonempty"], stats["error_status"], stats["skipped"], len(stats["timeouts"]), stats["tris"], time.time() - t0))
     allstats = {"seq": stats}
     variants = [("seq", exe, progs, findings)]
     if not cx.quick():
@@ -629,6 +733,11 @@ def run(cx):
         allstats["par"] = spar
         variants.append(("par", exe_par, pp, fpar))
 
+    all_findings = []
+    for vname, vexe, vprogs, vfind in variants:
+        for pid, k, key, desc, info in vfind:
+            ins = vprogs[pid][1]
+            all_findings.append((pid, k, key, desc, info, ins[k][0] if k < len(ins) else "?"))
     nshrunk = 0
     seen_keys = {}
     for vname, vexe, vprogs, vfind in variants:
@@ -649,6 +758,8 @@ def run(cx):
                          {"program": prog_line("r", mt, small), "original_program": prog_line(pid, mt, ins), "variant": vname,
                           "failing_value": info.get("value"), "S": info.get("S"),
                           "how_to_replay": "bin/check C01 --replay <this file>   (or: echo '<program>' | build/h-c01_prog-%s-*/c01_prog | build/ml-c01_driver-*/c01_driver)" % vname})
+    if pipes is not None:
+        pipeline_verdicts(cx, drv, pipes, all_findings, exe, progs)
     cx.cov["violation_keys_hit"] = seen_keys
     tot_vals = sum(s["values"] for s in allstats.values())
     cx.cov.update({
@@ -660,7 +771,8 @@ def run(cx):
                          "triangles_judged": sum(s["tris"] for s in allstats.values()),
                          "largest_mesh": max(s["maxtri_seen"] for s in allstats.values()),
                          "error_status_values": sum(s["error_status"] for s in allstats.values()),
-                         "skipped_too_large": sum(s["skipped"] for s in allstats.values())},
+                         "skipped_too_large": sum(s["skipped"] for s in allstats.values()),
+                         "programs_timed_out(not judged)": [t for s in allstats.values() for t in s["timeouts"]]},
     })
     for pid in list(progs)[:3]:
         cx.sample({"program": prog_line(pid, progs[pid][0], progs[pid][1])[:500]})
